@@ -7,7 +7,8 @@ from .writer import MLW, WRITE_TRAIT, BUFW, _is_err_of
 SINK_TRAIT = 'cadence::sinks::core::MetricSink'
 SEND_CALLS = ('std::net::udp::UdpSocket::send_to', 'std::os::unix::net::datagram::UnixDatagram::send_to',
               'crossbeam_channel::channel::Sender::try_send', 'crossbeam_channel::channel::Sender::send',
-              'std::net::udp::UdpSocket::send', 'std::os::unix::net::datagram::UnixDatagram::send')
+              'std::net::udp::UdpSocket::send', 'std::os::unix::net::datagram::UnixDatagram::send',
+             'std::os::unix::net::datagram::UnixDatagram::send_to_addr', 'std::os::unix::net::datagram::UnixDatagram::send_vectored')
 
 
 def buffered_sinks(cad):
@@ -350,7 +351,10 @@ def _arc_new_of(t):
 def rule_E1(ctx, rep, rid='E1'):
     """Errors surface: spy send maps Full/Disconnected to Err; SocketStats::update returns Err(e) with the same e."""
     cad = ctx.cad
-    b = one(rep, rid, 'SocketStats::update', cad.method('cadence::sinks::core::SocketStats', 'update'))
+    SS_ = 'cadence::sinks::core::SocketStats'
+    upd_ = [b_ for b_ in cad.all_bodies if b_.impl_self and type_head(b_.impl_self) == SS_ and b_.impl_trait is None and b_.def_kind == 'AssocFn'
+            and any(b_.locals[i].replace(' ', '').startswith('core::result::Result<usize,std::io::error::Error>') for i in range(1, b_.arg_count + 1))]
+    b = one(rep, rid, 'SocketStats::update', upd_)
     if b is not None:
         rep.analysed(b)
         T = Terms(b)
